@@ -311,9 +311,27 @@ pub fn c01(tier: Tier) -> ! {
             }
         }
     }
-    run.set("states", tot.scored);
-    run.set("transitions", tot.evals);
-    run.set("traces_validated_against_impl", tot.evals);
+    // every state the optimiser reaches (accepted or merely proposed) in a chained-stage search
+    let sweep_cfg = crate::rsx::Sweep {
+        depth: tier.pick(3, 5),
+        cap: tier.pick(1500, 60_000),
+        dense_steps: 400,
+        shapes: crate::rsx::start_shapes(tier).into_iter().filter(|s| !s.is_lj()).collect(),
+    };
+    let (rf, rstarts) = crate::rsx::sweep(&sweep_cfg, &crate::rsx::Wants { c01: true, c04: false, c05: false, c08: false });
+    for (w, c) in rf.c01 {
+        run.fail(None, &w, c);
+    }
+    run.set("search_start_states", rstarts);
+    run.set("search_states", rf.states);
+    run.set("search_stage_executions", rf.transitions);
+    run.set("search_scored_proposals_judged", rf.scored_proposals);
+    run.set("search_scored_proposals_with_images_within_2R", rf.c01_nontrivial);
+    run.set("search_depth", rf.max_depth as u64);
+    run.set("search_cap_hit", rf.cap_hit);
+    run.set("states", tot.scored + rf.states);
+    run.set("transitions", tot.evals + rf.transitions);
+    run.set("traces_validated_against_impl", tot.evals + rf.transitions);
     run.set("evaluations", tot.evals + corpus_n);
     run.set("distinct_nontrivial", tot.nontrivial);
     run.set("states_scored_by_the_crate", tot.scored);
@@ -327,7 +345,7 @@ pub fn c01(tier: Tier) -> ! {
     run.set("violations_through_images_beyond_first_shell", tot.far_image_cases);
     run.set("exhaustive", true);
     run.set("rule", "three finite lattices of real states per (7 groups x 11 shapes): (1) generic grid of cell ratio x angle (around the old heuristic's thresholds) x site coordinates dense near 0, +-1/4, +-1/2 x orientations x a geometric length ladder from dilute to denser than physically possible; (2) displacement-directed: for every pair of copies the site is solved so that the pair sits at a chosen Cartesian displacement |v| < 2R modulo the lattice, the wrap deciding which image realises it; (3) special positions reached by bound clamping and the initial site under pure cell shrinking. Every state goes through the crate's deserialiser and score(); every scored state is judged by a brute-force search over all images within 2R (separating-axis / disc-distance depth > 1e-9). Non-trivial = scored states in which at least one pair of distinct images lies within 2R.");
-    run.set("explanation", "states = states the crate scored (the oracle has something to say), transitions = states evaluated; the chained-stage search of C08 additionally applies the same oracle to every state the optimiser reaches.");
+    run.set("explanation", "states = lattice states the crate scored plus distinct states of the chained-stage search; transitions = lattice states evaluated plus real optimiser stages executed. The search (engine rsx) starts from the initial and a dense state of every group x hard shape, takes 28 scripted actions per state to the reported depth, and applies the same all-images oracle to every state the optimiser scores on the way, accepted or merely proposed.");
     run.sample(json!({"group": "p2", "shape": "trimer(0.637556,120,1)", "params": {"length": 5.6286, "ratio": 0.51, "angle": PI / 2., "x": -0.2856, "y": 0.472, "phi": 5.364}, "note": "copies 0 and 1 overlap through image (-1,2)"}));
     run.require(tot.scored > 1000 && tot.nontrivial > 1000, "too few scored / non-trivial states");
     run.finish()
@@ -803,15 +821,26 @@ pub fn c04(tier: Tier) -> ! {
             run.fail(None, &w, c);
         }
     }
-    run.set("states", evals);
-    run.set("transitions", evals);
-    run.set("traces_validated_against_impl", evals);
+    // states reached by optimisation (angle and ratio drift): chained-stage search
+    let sweep_cfg = crate::rsx::Sweep { depth: tier.pick(3, 5), cap: tier.pick(1000, 50_000), dense_steps: 300, shapes: crate::rsx::start_shapes(tier) };
+    let (rf, rstarts) = crate::rsx::sweep(&sweep_cfg, &crate::rsx::Wants { c01: false, c04: true, c05: false, c08: false });
+    for (w, c) in rf.c04 {
+        run.fail(None, &w, c);
+    }
+    run.set("search_start_states", rstarts);
+    run.set("search_states", rf.states);
+    run.set("search_stage_executions", rf.transitions);
+    run.set("search_depth", rf.max_depth as u64);
+    run.set("search_cap_hit", rf.cap_hit);
+    run.set("states", evals + rf.states);
+    run.set("transitions", evals + rf.transitions);
+    run.set("traces_validated_against_impl", evals + rf.transitions);
     run.set("evaluations", evals);
     run.set("distinct_nontrivial", evals);
     run.set("failing_states", fc);
     run.set("exhaustive", true);
     run.set("rule", "complete product: 7 groups x 2 state kinds (asymmetric probe shapes: scalene radial pentagon, trimer with unequal arms) x cells of the group's family (3 lengths x 4 ratios x 4 angles for oblique groups) x site grid incl. bounds x orientations; plus the constructor-built initial states. Every state: each operation of an independent ITA table, conjugated into Cartesian space with this cell, must be orthogonal and map the placed point sets onto each other up to lattice vectors");
-    run.set("explanation", "states reached by optimisation (angle and ratio drift) are judged by the same oracle inside the chained-stage search registered under C08; this check covers the constructible states.");
+    run.set("explanation", "states = constructible lattice states plus distinct states reached by the chained-stage search (engine rsx: BFS whose transition is one real optimiser stage under scripted draws, from the initial and a dense state of every group x shape x {hard, LJ}); every state returned by a stage is judged by the same symmetry oracle, so angle/ratio drift under optimisation is covered to the reported depth.");
     run.sample(json!({"group": "p2mg", "kind": "hard", "params": {"length": 3., "ratio": 0.34, "angle": PI / 2., "x": 0.41, "y": -0.25, "phi": 2.2}}));
     run.finish()
 }
